@@ -202,7 +202,8 @@ def parseStreamEv (e : String) : Option StreamEv :=
   | ["sc", l] => (natList l "+").map fun x => .ev (.settleCommit x)
   | ["sb"] => some (.ev .settleBook)
   | ["x", l] => (natList l "+").map fun x => .ev (.extSettle x)
-  | ["r", l] => (natList l "+").map fun x => .ev (.refresh x)
+  | ["r", _] => some (.ev .refresh)
+  | ["r"] => some (.ev .refresh)
   | _ => none
 
 def sameSet (a b : List Nat) : Bool := a.all b.contains && b.all a.contains
